@@ -95,12 +95,14 @@ def add_generic_field(e: ESpec):
         e.variants.append(VSpec(ident='GenLt', kind='tuple', ftypes=['RefStr']))
     elif e.generics == 'const':
         e.variants.append(VSpec(ident='GenCg', kind='tuple', ftypes=['Cg']))
+    elif e.generics == 'ty_nd':
+        e.variants.append(VSpec(ident='GenNd', kind='tuple', ftypes=['OptT']))
     elif e.generics == 'lt_ty':
         e.variants.append(VSpec(ident='GenLtT', kind='named', ftypes=['RefStr', 'T'], fnames=['r', 't'], fdw=[None, None]))
 
 
 def build_enums(rng, tier, pid, derives=('EnumString',), feats=('parse',), per_enum=5, with_default='some',
-                with_err='some', passes=None, phf=False, styles=None, generics_pool=('', 'ty', 'lt', 'const', 'where', 'lt_ty'),
+                with_err='some', passes=None, phf=False, styles=None, generics_pool=('', 'ty', 'lt', 'const', 'where', 'lt_ty', 'ty_nd'),
                 unit_only=False, prefix_pool=(None,)):
     shapes = variant_shapes()
     if unit_only:
